@@ -283,6 +283,45 @@ def forced_shutdown_drains_both_queues(n_tasks: int, n_results: int, size: int) 
     return p.result_queue.empty() and left == [None] * size
 
 
+def forced_drain_tolerates_concurrent_taker(n_tasks: int, steal_at: int, size: int) -> bool:
+    """
+    pre: 1 <= n_tasks <= 4 and 0 <= steal_at < n_tasks and 2 <= size <= 3
+    post: _
+    """
+    # the forced shutdown runs while workers are still taking tasks: between empty() and get(block=False) a worker may take
+    # the item the drain was about to take.  The drain has to ignore that (queue.Empty) -- otherwise the error of the
+    # failing item, which is being re-raised at that moment, is replaced by an unrelated one.
+    import queue as _q
+
+    class RacyQ:
+        def __init__(self, n, steal):
+            self.n, self.steal, self.gets, self.done = n, steal, 0, 0
+
+        def empty(self):
+            return self.n == 0
+
+        def get(self, block=True):
+            assert not block, 'drain blocks on the queue'
+            k = self.gets
+            self.gets += 1
+            assert self.n > 0
+            self.n -= 1
+            if k == self.steal:
+                raise _q.Empty()        # a worker was faster
+            return (k, None, ())
+
+        def task_done(self):
+            self.done += 1
+
+        def put(self, item):
+            pass
+    p = ThreadPool(size=size)
+    p.task_queue = RacyQ(n_tasks, steal_at)
+    p.result_queue = RacyQ(0, -1)
+    p.shutdown(force=True)
+    return p.task_queue.n == 0 and p.task_queue.done == n_tasks - 1
+
+
 def twin_order(perm: List[int], vals: List[int], fails: List[bool], k: int) -> bool:
     """
     pre: 2 <= len(perm) <= 4 and len(vals) == len(perm) and len(fails) == len(perm)
